@@ -5,7 +5,8 @@ HierSpec (JSON):
   leaf  T = {"name", "kind": "leaf", "ports": [P...], "seq": bool, "assigns": [[out_port, Expr]...]}
   node  T = {"name", "kind": "node", "ports": [P...], "signals": [{"name","ty"}...],
              "insts": [I...], "glue": [[dstActual, srcActual]...]}
-  P = {"name", "dir": "in"|"out", "ty": ["bit"] | ["u"|"s"|"bv", width]}          (declaration order!)
+  P = {"name", "dir": "in"|"out", "ty": ["bit"] | ["u"|"s"|"bv", width], "default": absent|null|int}   (declaration
+       order!; default only on outputs of registered leaves: power-up value of the port)
   I = {"t": child index, "helper": "none"|"open"|"conn", "where": "arch"|"conc",
        "order": [port names in keyword order of the call],
        "conn": {formal: Actual},            actuals given in the instantiation call
@@ -243,6 +244,10 @@ def _leaf(draw, idx):
         assigns.append([o["name"], e])
     ports = ins + outs
     if seq:
+        # registered outputs: the port default is what the port shows before the first clock edge (often all-zero)
+        for o in outs:
+            dv = draw(st.sampled_from([0, 0, 0, "any", None]))
+            o["default"] = draw(st.integers(0, (1 << width(o["ty"])) - 1)) if dv == "any" else dv
         ports.append({"name": "clk", "dir": "in", "ty": ["bit"]})
     ports = draw(st.permutations(ports))
     return {"name": f"L{idx}", "kind": "leaf", "ports": list(ports), "seq": seq, "assigns": assigns}
